@@ -10,8 +10,8 @@ import pipeline as P
 NOT_CARRIED = [
     "pyfar's Orientations/rotate (quaternion -> Euler -> spherical coordinates) is not modelled: the model is "
     "the matrix with columns (up, normal x up, normal) and the correspondence compares at 1e-12 absolute",
-    "completeness rot(rotT v) = v for every v (the frame spans the space) is not proved; C14_frame_equiv is stated "
-    "for directions given by their wall-frame coordinates",
+    "float rounding: C14_rigid / C14_frame_equiv / C14_frame_complete are identities of exact ring arithmetic; the "
+    "implementation's rotated direction sets are compared with the model at 1e-12 absolute",
 ]
 
 
